@@ -228,6 +228,8 @@ theorem inv_setBundle (s : Ledger) (h : Nat) (b' : Bundle) (a : List Nat) (b : B
 theorem inv_step (s : Ledger) (c : Call) (hi : Inv s) : Inv (step false s c).1 := by
   cases c with
   | bufferTest => exact inv_addObj s _ _ (fun _ => rfl) hi
+  | rndBundle bytes => exact inv_addObj s _ _ (fun _ => rfl) hi
+  | working => exact hi
   | fromCbor bytes =>
     simp only [step]
     cases hd : decodeBundle bytes with
